@@ -262,8 +262,44 @@ def run_forget(ck, F, cfgname):
                         ck.bad("C16.forget", key, "mem::forget(%s) while its owning field `%s` was never taken: whatever it owns is never released" % (ty, f), b.loc(bb))
 
 
+SEND_SYNC = {
+    # (type, trait) -> required where-clauses (the conditions under which sharing across threads is sound)
+    ("arrow_buffer::buffer::immutable::Buffer", "Send"): ["arrow_buffer::bytes::Bytes: std::marker::Send"],
+    ("arrow_buffer::buffer::immutable::Buffer", "Sync"): ["arrow_buffer::bytes::Bytes: std::marker::Sync"],
+    ("arrow_buffer::buffer::mutable::MutableBuffer", "Send"): [],
+    ("arrow_buffer::buffer::mutable::MutableBuffer", "Sync"): [],
+    ("arrow_buffer::bytes::Bytes", "Send"): ["arrow_buffer::alloc::Deallocation: std::marker::Send"],
+    ("arrow_buffer::bytes::Bytes", "Sync"): ["arrow_buffer::alloc::Deallocation: std::marker::Sync"],
+    ("arrow_data::ffi::FFI_ArrowArray", "Send"): [],
+    ("arrow_data::ffi::FFI_ArrowArray", "Sync"): [],
+    ("arrow_array::ffi_stream::FFI_ArrowArrayStream", "Send"): [],
+    ("arrow_schema::ffi::FFI_ArrowSchema", "Send"): [],
+}
+
+
+def run_send_sync(ck, F):
+    ck.rule("C16.send-sync-inventory", "the `unsafe impl Send/Sync` of the buffer and FFI crates are exactly the audited ones and keep their where-clauses "
+            "(e.g. Buffer: Send only if Bytes: Send, Bytes only if its Deallocation owner is)", floor=len(SEND_SYNC))
+    for cn in ["arrow_buffer", "arrow_data", "arrow_array", "arrow_schema"]:
+        for im in F.crate(cn).impls:
+            tr = im.get("trait")
+            if tr not in ("std::marker::Send", "std::marker::Sync") or not im.get("unsafe"):
+                continue
+            key = (re.sub(r"<.*$", "", im["self_ty"]), tr.split("::")[-1])
+            name = "%s: %s" % key
+            if key not in SEND_SYNC:
+                ck.bad("C16.send-sync-inventory", name, "new `unsafe impl %s for %s`: shared bytes / owners become reachable from other threads without an audit" % (key[1], key[0]), "%s:%s" % (im["file"], im["line"]))
+            else:
+                missing = [p_ for p_ in SEND_SYNC[key] if p_ not in im.get("preds", [])]
+                if missing:
+                    ck.bad("C16.send-sync-inventory", name, "`unsafe impl %s for %s` lost its condition %s" % (key[1], key[0], missing), "%s:%s" % (im["file"], im["line"]))
+                else:
+                    ck.ok("C16.send-sync-inventory", name, "audited; where %s" % (SEND_SYNC[key] or "(unconditional)"))
+
+
 def run(ck, tier):
     F = factsmod.Facts("ws")
+    run_send_sync(ck, F)
     api.no_impl(ck, F, "C16.no-mut-view", ["arrow_buffer", "arrow_data", "arrow_array"], SHARED_TYPES, MUT_TRAITS)
     ck.rule("C16.witness", "compile-fail witnesses for immutability of shared buffers")
     # witnesses (buffer subset is in core.rs.txt; all are run, cheap)
